@@ -154,8 +154,29 @@ pub fn expansion_count(p: &str) -> Option<u64> {
 
 fn corrupt(rng: &mut Rng, doc: &mut Vec<u8>, other: &[u8], log: &mut Vec<String>) {
     let n = doc.len();
-    let kind = rng.below(14);
+    let kind = rng.below(16);
     let name = match kind {
+        14 | 15 => {
+            // exotic but valid UTF-8: Unicode digits and numerics that are not
+            // ASCII digits, characters whose case mapping changes length,
+            // ligatures, combining marks, zero-width and bidi controls
+            let pool: [&str; 20] = [
+                "\u{b2}", "\u{bd}", "\u{663}", "\u{ff13}", "\u{2163}", "\u{1d7d8}", "\u{1c5}", "\u{df}", "\u{130}", "\u{fb01}",
+                "\u{301}", "\u{200d}", "\u{200f}", "\u{2028}", "\u{a0}", "\u{3000}", "\u{212a}", "\u{17f}", "\u{e9}", "\u{10ffff}",
+            ];
+            // at a character boundary when the document is valid UTF-8
+            let mut at = rng.urange(0, n);
+            while at < n && (doc[at] & 0xc0) == 0x80 {
+                at += 1;
+            }
+            let k = rng.urange(1, 3);
+            let mut ins = Vec::new();
+            for _ in 0..k {
+                ins.extend_from_slice(rng.pick_str(&pool).as_bytes());
+            }
+            doc.splice(at..at, ins);
+            "insert_unicode"
+        }
         0 => {
             if n > 0 {
                 let i = rng.usize_below(n);
@@ -1634,6 +1655,7 @@ fn count_corruption(ctx: &mut Ctx, name: &str) {
         "repeat_brace_group" => "repeat_brace_group",
         "swap_bytes" => "swap_bytes",
         "byte_set" => "byte_set",
+        "insert_unicode" => "insert_unicode",
         "empty_metadata_file" => "empty_metadata_file",
         "garbage_metadata_file" => "garbage_metadata_file",
         _ => "other_corruption",
